@@ -607,42 +607,38 @@ func c24ScoreString(d map[string]float64) string {
 
 // ------------------------------------------------------------ enumeration
 
-// subtree evaluates every history that extends pre, lengths len(pre)..depth,
-// shorter ones first. It returns false when the deadline passed.
-func (r *c24Run) subtree(l *vk.Local, pre []int, deadline time.Time) bool {
-	for n := len(pre); n <= r.depth; n++ {
-		buf := make([]int, n)
-		copy(buf, pre)
-		ok := true
-		var rec func(i int)
-		rec = func(i int) {
-			if !ok {
-				return
-			}
-			if i == n {
-				if time.Now().After(deadline) {
-					ok = false
-					return
-				}
-				r.history(l, buf)
-				return
-			}
-			for s := range r.ops {
-				buf[i] = s
-				rec(i + 1)
-			}
-		}
-		rec(len(pre))
+// level evaluates every history of exactly n mutators that extends pre, in
+// lexicographic order. It returns false when the deadline passed.
+func (r *c24Run) level(l *vk.Local, pre []int, n int, deadline time.Time) bool {
+	buf := make([]int, n)
+	copy(buf, pre)
+	ok := true
+	var rec func(i int)
+	rec = func(i int) {
 		if !ok {
-			return false
+			return
+		}
+		if i == n {
+			if time.Now().After(deadline) {
+				ok = false
+				return
+			}
+			r.history(l, buf)
+			return
+		}
+		for s := range r.ops {
+			buf[i] = s
+			rec(i + 1)
 		}
 	}
-	return true
+	rec(len(pre))
+	return ok
 }
 
-// c24Worker is the body of a worker process: it reads one shard (a history
-// prefix, space-separated mutator indices) per line on stdin, evaluates the
-// subtree below it, answers "ok" or "capped", and on EOF prints its result.
+// c24Worker is the body of a worker process: it reads one work item (a history
+// length followed by a history prefix as mutator indices) per line on stdin,
+// evaluates all histories of that length with that prefix, answers "ok" or
+// "capped", and on EOF prints its result.
 // Worker processes are used instead of goroutines because bbolt maps every
 // database file into memory and address-space operations of one process are
 // serialised by the kernel.
@@ -656,12 +652,12 @@ func c24Worker() {
 	in := bufio.NewScanner(os.Stdin)
 	out := bufio.NewWriter(os.Stdout)
 	for in.Scan() {
-		var pre []int
+		var item []int
 		for _, f := range strings.Fields(in.Text()) {
 			v, _ := strconv.Atoi(f)
-			pre = append(pre, v)
+			item = append(item, v)
 		}
-		if r.subtree(l, pre, deadline) {
+		if r.level(l, item[1:], item[0], deadline) {
 			fmt.Fprintln(out, "C24 ok")
 		} else {
 			capped = true
@@ -741,7 +737,7 @@ func TestVerifC24(t *testing.T) {
 			}
 			names = append(names, s)
 		}
-		c.Rule(fmt.Sprintf("every sequence of <=%d mutators over the %d-mutator alphabet %v, each replayed on a fresh real bbolt database (complete tree of histories, breadth-first within each subtree, no state merging); after every mutator its result is judged, and in the state reached by every history all queries are evaluated and judged: NextCmdSeq, Cmd(s), CmdsWithSeq(f,u) incl. u=-1, NextCmd(f,p), PrevCmd(u,p) for s,f,u in {0,1,2,3,last+1,last+5}, p in %q, Dirs(bl) for 4 blacklists; class = (next sequence number, presence bitmap of the sequence numbers, number of directories, kind of the last mutator, whether it changed the state)", depth, len(r.ops), names, c24Prefixes))
+		c.Rule(fmt.Sprintf("every sequence of <=%d mutators over the %d-mutator alphabet %v, each replayed on a fresh real bbolt database (complete tree of histories, breadth-first by length, no state merging); after every mutator its result is judged, and in the state reached by every history all queries are evaluated and judged: NextCmdSeq, Cmd(s), CmdsWithSeq(f,u) incl. u=-1, NextCmd(f,p), PrevCmd(u,p) for s,f,u in {0,1,2,3,last+1,last+5}, p in %q, Dirs(bl) for 4 blacklists; class = (next sequence number, presence bitmap of the sequence numbers, number of directories, kind of the last mutator, whether it changed the state)", depth, len(r.ops), names, c24Prefixes))
 		c.Assume(
 			"the database is opened with bbolt options NoSync+NoFreelistSync through NewStoreFromDB (durability / the default-options path is C25's subject); one store handle, no concurrency (C26)",
 			"stored directory scores are compared with the exact real-number formula with relative tolerance 1e-5 (the store rounds to 7 significant digits on every write); the relative order of entries with equal scores is not judged",
@@ -758,12 +754,14 @@ func TestVerifC24(t *testing.T) {
 		}
 		c.Merge(l0)
 
-		// one shard per prefix of length 2, handed out dynamically to worker processes
+		// breadth-first: all histories of length n before those of length n+1;
+		// each level is split by the first two mutators into work items {n, a, b}
+		// that are handed out dynamically to worker processes
 		var shards [][]int
-		if depth >= 2 {
+		for n := 2; n <= depth; n++ {
 			for a := range r.ops {
 				for b := range r.ops {
-					shards = append(shards, []int{a, b})
+					shards = append(shards, []int{n, a, b})
 				}
 			}
 		}
@@ -806,16 +804,16 @@ func TestVerifC24(t *testing.T) {
 						break
 					}
 					if c.TimeUp() {
-						c.Capped("time budget reached before all shards were handed out")
+						c.Capped(fmt.Sprintf("time budget reached at length %d", shards[i][0]))
 						break
 					}
-					fmt.Fprintf(stdin, "%d %d\n", shards[i][0], shards[i][1])
+					fmt.Fprintf(stdin, "%d %d %d\n", shards[i][0], shards[i][1], shards[i][2])
 					switch readLine() {
 					case "ok":
 					case "capped":
-						c.Capped(fmt.Sprintf("time budget reached inside the subtree of prefix %v", shards[i]))
+						c.Capped(fmt.Sprintf("time budget reached at length %d (prefix %v)", shards[i][0], shards[i][1:]))
 					default:
-						failed.Store(fmt.Sprintf("worker %d died while evaluating the subtree of prefix %v", w, shards[i]))
+						failed.Store(fmt.Sprintf("worker %d died while evaluating work item %v", w, shards[i]))
 						cmd.Wait()
 						return
 					}
